@@ -42,6 +42,9 @@ def main():
         else:
             subprocess.run(["git", "-C", "/repo", "checkout", "--", "."], check=True)
             subprocess.run(["git", "-C", "/repo", "clean", "-fdq", "--", "kernel", "valget"], check=False)
-    json.dump(results, open(os.path.join(d, "checks_result.json"), "w"), indent=1, sort_keys=True)
+    rp = os.path.join(d, "checks_result.json")
+    merged = json.load(open(rp)) if os.path.exists(rp) else {}
+    merged.update(results)      # a partial re-run refreshes only the checks it ran
+    json.dump(merged, open(rp, "w"), indent=1, sort_keys=True)
     return 0
 sys.exit(main())
